@@ -77,7 +77,7 @@ func c18MixedCase(l *Lab, rep *Report, w *c18World) {
 					plain = true
 				}
 				for _, v := range r.Header.Values("Www-Authenticate") {
-					challenges = append(challenges, strings.Fields(v+" x")[0])
+					challenges = append(challenges, strings.Fields(v + " x")[0])
 				}
 			}
 			hc.Close()
